@@ -27,6 +27,12 @@ enum { PLACE_A16 = 0, PLACE_A32 = 1, PLACE_A64 = 2, PLACE_FLUSH = 3, PLACE_NKIND
 struct SimHeap {
     static const size_t CELL_DATA = 8192, CELL_GUARD = 4096, CELL = CELL_DATA + CELL_GUARD;
     static const int NCELLS = 160;
+    // requests too big for a cell (a keystream or scratch buffer of tens of kilobytes) get one of a few big cells
+    static const size_t BIG_DATA = 1u << 20, BIG = BIG_DATA + CELL_GUARD;
+    static const int NBIG = 6;
+    int big_used = 0;
+    uint8_t *cell_base(int cell) const { return cell < NCELLS ? arena + (size_t)cell * CELL : arena + (size_t)NCELLS * CELL + (size_t)(cell - NCELLS) * BIG; }
+    size_t cell_data(int cell) const { return cell < NCELLS ? CELL_DATA : BIG_DATA; }
     uint8_t *arena = nullptr;
     bool active = false;          // when false the simheap_* symbols pass through to libc
     std::vector<HeapBlock> blocks;
@@ -53,7 +59,7 @@ struct SimHeap {
     HeapBlock *find_any(const void *p);    // block (live or freed) containing p
     void scan_nonzero();          // update ever_nonzero of live blocks
     int live_count() const;
-    bool in_arena(const void *p) const { return arena && (const uint8_t *)p >= arena && (const uint8_t *)p < arena + (size_t)NCELLS * CELL; }
+    bool in_arena(const void *p) const { return arena && (const uint8_t *)p >= arena && (const uint8_t *)p < arena + (size_t)NCELLS * CELL + (size_t)NBIG * BIG; }
 };
 extern SimHeap g_heap;
 
